@@ -15,7 +15,7 @@ use std::cell::Cell;
 
 pub struct Counting;
 
-const SLOTS: usize = 64;
+const SLOTS: usize = 1024;
 
 thread_local! {
     static WINDOW: Cell<u32> = const { Cell::new(0) };
@@ -38,11 +38,11 @@ unsafe impl GlobalAlloc for Counting {
                 N_ALLOC.with(|c| c.set(c.get() + 1));
                 BYTES.with(|c| c.set(c.get() + l.size() as u64));
                 LIVE.with(|live| {
-                    let mut a = live.get();
+                    // in-place access: the array is only touched from this thread, never re-entrantly
+                    let a = &mut *live.as_ptr();
                     let n = LIVE_N.with(|n| n.get());
                     if n < SLOTS {
                         a[n] = (p as usize, l.size());
-                        live.set(a);
                         LIVE_N.with(|c| c.set(n + 1));
                     } else {
                         OVERFLOW.with(|o| o.set(true));
@@ -57,12 +57,11 @@ unsafe impl GlobalAlloc for Counting {
             let n = cn.get();
             if n > 0 {
                 LIVE.with(|live| {
-                    let mut a = live.get();
+                    let a = &mut *live.as_ptr();
                     for i in 0..n {
                         if a[i].0 == p as usize {
                             a[i] = a[n - 1];
                             a[n - 1] = (0, 0);
-                            live.set(a);
                             cn.set(n - 1);
                             N_FREE.with(|c| c.set(c.get() + 1));
                             break;
@@ -80,11 +79,10 @@ unsafe impl GlobalAlloc for Counting {
             let n = cn.get();
             if n > 0 && !q.is_null() {
                 LIVE.with(|live| {
-                    let mut a = live.get();
+                    let a = &mut *live.as_ptr();
                     for i in 0..n {
                         if a[i].0 == p as usize {
                             a[i] = (q as usize, new_size);
-                            live.set(a);
                             break;
                         }
                     }
@@ -136,7 +134,7 @@ pub fn live_tables() -> usize {
 }
 pub fn live_bytes() -> usize {
     let n = LIVE_N.with(|c| c.get());
-    LIVE.with(|l| l.get()[..n].iter().map(|x| x.1).sum())
+    LIVE.with(|l| unsafe { (&*l.as_ptr())[..n].iter().map(|x| x.1).sum() })
 }
 pub fn overflowed() -> bool {
     OVERFLOW.with(|c| c.get())
@@ -146,7 +144,6 @@ pub fn reset() {
     N_ALLOC.with(|c| c.set(0));
     N_FREE.with(|c| c.set(0));
     BYTES.with(|c| c.set(0));
-    LIVE.with(|c| c.set([(0, 0); SLOTS]));
     LIVE_N.with(|c| c.set(0));
     OVERFLOW.with(|c| c.set(false));
 }
